@@ -860,6 +860,11 @@ func (db *DB) Close(ctx context.Context) (err error) {
 	db.f = nil
 	db.opened = false
 	db.rtx = nil
+	// WAL continuity cannot be assumed across a close: the application may
+	// write, checkpoint or truncate the WAL before the next Open(). Forget the
+	// in-memory cursor so that the next sync re-derives it from the last LTX
+	// file instead of mistaking a foreign truncation for our own checkpoint.
+	db.syncState = syncState{}
 	db.mu.Unlock()
 
 	if sqlDB != nil {
